@@ -58,6 +58,45 @@ Proof.
   intros c Hc. cbn beta in Hc. destruct (cf_expr c); cbn [cexpr_Bal]; [exact I | apply Bal_balanced, Hc | apply Bal_balanced, Hc].
 Qed.
 
+(** ... the whole `match` of an enum (patterns, the variant-index closure, the arms) and the hidden `Eq` assertion *)
+Theorem C16_enum_comparison_bodies_well_bracketed :
+  forall op vs,
+    Forall (fun x => Forall (fun c => match cf_expr c with
+                                      | CEDefault _ => True
+                                      | CEKey k => balanced k = true
+                                      | CEBy _ b => balanced b = true
+                                      end) (snd x)) vs ->
+    balanced (r_cmp_enum op vs) = true.
+Proof.
+  intros op vs H. apply Bal_balanced, r_cmp_enum_Bal. eapply Forall_impl; [|exact H].
+  intros x Hx. cbn beta in Hx. unfold cfields_Bal. eapply Forall_impl; [|exact Hx].
+  intros c Hc. cbn beta in Hc. destruct (cf_expr c); cbn [cexpr_Bal]; [exact I | apply Bal_balanced, Hc | apply Bal_balanced, Hc].
+Qed.
+
+Theorem C16_eq_assertion_well_bracketed :
+  forall sk x, match snd x with QKey k => balanced k = true | _ => True end ->
+               balanced (r_eq_check sk x) = true.
+Proof.
+  intros sk x H. apply Bal_balanced, r_eq_check_Bal. destruct (snd x); try exact I. apply Bal_balanced, H.
+Qed.
+
+(** ... the `Clone` bodies, which embed nothing but names and types of the item: unconditionally *)
+Theorem C16_clone_bodies_well_bracketed :
+  (forall name sh fs, balanced (r_clone_struct name sh fs) = true) /\
+  (forall vs, balanced (r_clone_enum vs) = true).
+Proof. split; intros; apply Bal_balanced; [apply r_clone_struct_Bal | apply r_clone_enum_Bal]. Qed.
+
+(** ... the builder chain of `Debug` (for any well-bracketed way of naming a field) and the values of `Default` *)
+Theorem C16_debug_and_default_pieces_well_bracketed :
+  (forall d place, (forall f, balanced (place f) = true) -> balanced (r_debug_expr d place) = true) /\
+  (forall v, match v with DVInto _ e | DVExpr e => balanced e = true | DVDefault _ => True end ->
+             balanced (r_dvalue v) = true).
+Proof.
+  split.
+  - intros d place H. apply Bal_balanced, r_debug_expr_Bal. intros f. apply Bal_balanced, H.
+  - intros v H. apply Bal_balanced, r_dvalue_Bal. destruct v; try exact I; apply Bal_balanced, H.
+Qed.
+
 (** the user's types and where-predicates are printed from an AST: always well-bracketed *)
 Theorem C16_printed_types_well_bracketed : forall t, balanced (r_ty t) = true.
 Proof. exact r_ty_balanced. Qed.
@@ -82,3 +121,7 @@ Print Assumptions C16_key_substitution_well_bracketed.
 Print Assumptions C16_comparison_bodies_well_bracketed.
 Print Assumptions C16_printed_types_well_bracketed.
 Print Assumptions C16_printed_predicates_well_bracketed.
+Print Assumptions C16_enum_comparison_bodies_well_bracketed.
+Print Assumptions C16_eq_assertion_well_bracketed.
+Print Assumptions C16_clone_bodies_well_bracketed.
+Print Assumptions C16_debug_and_default_pieces_well_bracketed.
